@@ -330,6 +330,21 @@ def syntax_unit(ck, prog, N):
                 report_syntax(ck, br, uni, s, m, 'pattern kind %s' % name)
                 continue
             # payload
+            if mine == 'Regex' and hasattr(pat.items[0], 'pattern'):
+                # the regex source is the text after `?`, byte for byte (case is the builder flag's business, never the text's)
+                rv = pat.items[0]
+                pb, pl, pc_ = S.parts(rv.pattern)
+                elen = body_len - 1
+                same = [z3bool(_len_eq(pl, elen)), z3bool(rv.insensitive) == (ins if off == 1 else z3.BoolVal(False))]
+                for j in range(len(pb)):
+                    if off + 1 + j < cap:
+                        same.append(z3.Implies(z3.UGT(elen, L(j)), z3bool(S._eqb(pb[j], bs[off + 1 + j]))))
+                ck.obligations += 1
+                rr, m = ck.solve(uni, *r.pc, cond_off, z3.Not(z3.And(*same)))
+                if rr == 'unsat':
+                    ck.discharged += 1
+                else:
+                    report_syntax(ck, br, uni, s, m, 'regex source / flag')
             if mine in ('Contains', 'EndsWith', 'StartsWith', 'Exact'):
                 payload = pat.items[0].s
                 lo, hi = {'Contains': (1, 1), 'EndsWith': (1, 0), 'StartsWith': (0, 1)}.get(mine, (0, 0))
@@ -379,6 +394,8 @@ def report_syntax(ck, br, uni, s, model, what):
     natk = {'Contains': 'contains', 'EndsWith': 'suffix', 'StartsWith': 'prefix', 'Exact': 'exact', 'Any': 'any', 'Regex': 'regex'}.get(nat.get('t'), 'num')
     refk = 'num' if kind in ('inum', 'fnum') else kind
     natp = bytes(nat.get('v', [])).decode('latin1') if 'v' in nat else None
+    if refk == 'regex' and nat.get('t') == 'Regex' and 'p' in nat:
+        natp = bytes(nat['p']).decode('latin1')
     agree = n.get('ok') and natk == refk and n.get('ignore_case') == ins and (natp == payload or refk in ('num', 'any'))
     if agree:
         ck.inconclusive.append('pattern syntax: model for %r did not reproduce natively (%s)' % (b, what))
